@@ -9,12 +9,21 @@ object_snapshot(o) canon(vars(o))
 """
 
 import decimal
+import fractions
 import hashlib
 import json
+import re
 import sys
 import types
 import warnings
 from collections import OrderedDict
+
+try:
+    from collections.abc import Mapping
+except ImportError:  # pragma: no cover
+    from collections import Mapping
+
+_ADDRESS = re.compile(r"( at)? 0x[0-9a-fA-F]+|\b(un)?locked\b ?")
 
 
 def canon(x, depth=0):
@@ -36,7 +45,24 @@ def canon(x, depth=0):
         return [type(x).__name__] + sorted((canon(v, depth + 1) for v in x), key=repr)
     if isinstance(x, bytes):
         return ["bytes", x.decode("latin-1")]
-    return ["<%s>" % type(x).__name__, repr(x)[:80]]
+    if isinstance(x, fractions.Fraction):
+        return ["Fraction", str(x)]
+    if isinstance(x, Mapping):
+        # a read-only mapping type of the package's own (frozen constant tables): its items, in its order
+        try:
+            return ["mapping:%s" % type(x).__name__] + [[canon(k, depth + 1), canon(x[k], depth + 1)] for k in x]
+        except Exception:  # noqa
+            pass
+    if type(x).__module__.split(".")[0] == "cvss" and not isinstance(x, type) and not callable(x):
+        # an instance of one of the package's own helper classes: its own data
+        try:
+            st = instance_state(x)
+            return ["<%s>" % type(x).__name__] + [[k, canon(st[k], depth + 1)] for k in sorted(st)]
+        except Exception:  # noqa
+            pass
+    # anything else (a lock, a compiled pattern, a function): its type and its repr without the address,
+    # which differs from process to process and says nothing about the value
+    return ["<%s>" % type(x).__name__, _ADDRESS.sub("", repr(x))[:200]]
 
 
 def digest(x):
@@ -121,5 +147,23 @@ def constants_snapshot():
     return snap
 
 
+def instance_state(o):
+    """The instance's own data: __dict__ if it has one, plus every slot of its classes that is set
+    (a class that declares __slots__ has no __dict__ and vars() refuses it)."""
+    state = dict(getattr(o, "__dict__", {}))
+    for cls in type(o).__mro__:
+        slots = cls.__dict__.get("__slots__", ())
+        if isinstance(slots, str):
+            slots = (slots,)
+        for name in slots:
+            if name in ("__dict__", "__weakref__"):
+                continue
+            try:
+                state[name] = getattr(o, name)
+            except AttributeError:
+                pass
+    return state
+
+
 def object_snapshot(o):
-    return canon(vars(o))
+    return canon(instance_state(o))
